@@ -414,12 +414,25 @@ pub fn check_case(c: &Case) -> CheckResult {
                 if bytes.len() > 50_000 || std::str::from_utf8(&bytes).is_err() {
                     interesting_payload = true;
                 }
+                // the harness HTTP server states a different urgency with every accepted version
+                let stated = ((oi * 7 + bytes.len()) % 3) as u8;
+                if let Some(hs) = bk.http() {
+                    hs.state.lock().unwrap().urgency = stated;
+                }
                 let s = bk.handle(h, nonempty)?;
-                let (res, _urg) = block_on(s.add_version(p, bytes.clone()))
+                let (res, urg) = block_on(s.add_version(p, bytes.clone()))
                     .map_err(|e| Failure::new("add-version-error", format!("{what}: add_version failed: {e}")))?;
                 let should_accept = m.versions.is_empty() || p == m.latest();
                 match res {
                     AddVersionResult::Ok(id) => {
+                        if c.backend == Backend::Http {
+                            crate::ensure!(
+                                urg == crate::engine::mserver::urgency_of(stated),
+                                "http-urgency",
+                                "{what}: the server stated snapshot urgency {stated} (0 none, 1 low, 2 high) with the accepted version, the client reported {urg:?}"
+                            );
+                            rep.class_if(stated > 0, "http: snapshot urgency stated");
+                        }
                         crate::ensure!(
                             should_accept,
                             "accepted-wrong-parent",
